@@ -101,6 +101,10 @@ func c08prop(ev *evid.Rec) func(rt *rapid.T) {
 		if storedInfo {
 			comment = rapid.SampledFrom([]string{"", "a comment", strings.Repeat("c", 300), strings.Repeat("L", 32600), strings.Repeat("M", 32768), strings.Repeat("N", 40000), strings.Repeat("O", 65535)}).Draw(rt, "comment") // a comment may be as long as a field: the stored info fork then exceeds 32 KiB
 		}
+		infoPad := 0
+		if storedInfo {
+			infoPad = rapid.SampledFrom([]int{0, 0, 1, 3}).Draw(rt, "paddingAfterStoredComment")
+		}
 		mode := rapid.SampledFrom([]string{"plain", "plain", "resume", "resume", "preview", "preview-resume"}).Draw(rt, "mode")
 		k := 0
 		if mode == "resume" || mode == "preview-resume" {
@@ -178,7 +182,8 @@ func c08prop(ev *evid.Rec) func(rt *rapid.T) {
 			wireName := macRoman(name)
 			if storedInfo {
 				inf := hlref.InfoFork{Platform: [4]byte{'A', 'M', 'A', 'C'}, Type: [4]byte{'A', 'B', 'C', 'D'}, Creator: [4]byte{'W', 'X', 'Y', 'Z'}, Name: wireName, Comment: []byte(comment)}
-				must(os.WriteFile(filepath.Join(dir, ".info_"+name), inf.Encode(), 0o644))
+				// (the stored fork may carry padding after the comment, as the forks some clients upload do: it is no part of the comment)
+				must(os.WriteFile(filepath.Join(dir, ".info_"+name), append(inf.Encode(), make([]byte, infoPad)...), 0o644))
 			}
 			if storedRsrc {
 				must(os.WriteFile(filepath.Join(dir, ".rsrc_"+name), rsrc, 0o644))
